@@ -115,6 +115,8 @@ type ConnSpec struct {
 
 	Setup    func(l *simnet.Link)
 	Deadline time.Duration
+	// ServerStall: the server stops reading for this long right after its handshake (slow node).
+	ServerStall time.Duration
 }
 
 // ConnOutcome is everything observed about one connection.
@@ -203,6 +205,10 @@ func defaultServer(o *ConnOutcome, conn net.Conn) {
 		rw = sc
 	}
 	o.SDone = true
+	if sp.ServerStall > 0 {
+		simrt.Sleep(sp.ServerStall)
+		conn.SetDeadline(time.Now().Add(dl))
+	}
 	buf := make([]byte, rs)
 	for {
 		n, err := rw.Read(buf)
